@@ -18,6 +18,9 @@ struct zstd_verif_ghost_s {
     unsigned long long xxh_bytes;         /* bytes fed to XXH64_update since the last XXH64_reset */
     const void* range_start;              /* a range returned by a callee that was replaced by its contract */
     size_t range_size;
+    unsigned long long io_pos;            /* ghost file position maintained by the fwrite / fseek stubs */
+    size_t   io_k;                        /* ghost byte index into the buffer handed to the sparse writer (chosen by the harness) */
+    int      io_covered;                  /* that byte has been passed to fwrite */
     size_t   cell_idx;                    /* ghost cell of a table-transforming loop: index chosen by the harness, */
     unsigned cell_old, cell_new;          /* its value before the loop and the value the specification gives it   */
 };
@@ -31,6 +34,36 @@ extern struct zstd_verif_ghost_s zstd_verif_ghost;
 /* the two compressed-block states of a context are swapped, never replaced: the pair of pointers is the pair (p, n) in some order */
 #define ZSTD_VERIF_BLOCKSTATE_SWAPPED(zc, p, n) \
     (((zc)->blockState.prevCBlock == (p) && (zc)->blockState.nextCBlock == (n)) || ((zc)->blockState.prevCBlock == (n) && (zc)->blockState.nextCBlock == (p)))
+/* ---- sparse file writer (programs/fileio_asyncio.c, AIO_fwriteSparse) ----
+ * accounting: file position + pending skip == their values at loop entry + bytes of the buffer processed so far;
+ * ghost byte io_k: once processed it was either written or it is zero (only zero bytes are ever skipped). */
+#define ZSTD_VERIF_SPARSE_DONE(bufferT, ptrT) ((size_t)((const char*)(ptrT) - (const char*)(bufferT)))
+#define ZSTD_VERIF_SPARSE_SEGMENTS(buffer, bufferT, bufferTEnd, ptrT, bufferSizeT, storedSkips) \
+    __CPROVER_assigns(ptrT, bufferSizeT, storedSkips, ZSTD_VERIF_GHOST_FRAME) \
+    __CPROVER_loop_invariant(__CPROVER_same_object(ptrT, bufferT) \
+        && __CPROVER_POINTER_OFFSET(bufferT) <= __CPROVER_POINTER_OFFSET(ptrT) && __CPROVER_POINTER_OFFSET(ptrT) <= __CPROVER_POINTER_OFFSET(bufferTEnd) \
+        && (bufferSizeT) <= ((size_t)1 << 40) \
+        && (size_t)(__CPROVER_POINTER_OFFSET(bufferTEnd) - __CPROVER_POINTER_OFFSET(ptrT)) == (bufferSizeT) * sizeof(size_t) \
+        && zstd_verif_ghost.io_pos + (storedSkips) == __CPROVER_loop_entry(zstd_verif_ghost.io_pos) + __CPROVER_loop_entry(storedSkips) + ZSTD_VERIF_SPARSE_DONE(bufferT, ptrT) \
+        && (storedSkips) <= __CPROVER_loop_entry(storedSkips) + ZSTD_VERIF_SPARSE_DONE(bufferT, ptrT) \
+        && zstd_verif_ghost.io_k == __CPROVER_loop_entry(zstd_verif_ghost.io_k) \
+        && zstd_verif_ghost.range_start == __CPROVER_loop_entry(zstd_verif_ghost.range_start) \
+        && (__CPROVER_loop_entry(zstd_verif_ghost.io_covered) == 0 || zstd_verif_ghost.io_covered != 0) \
+        && (zstd_verif_ghost.io_k >= ZSTD_VERIF_SPARSE_DONE(bufferT, ptrT) || zstd_verif_ghost.io_covered != 0 || ((const unsigned char*)(buffer))[zstd_verif_ghost.io_k] == 0)) \
+    __CPROVER_decreases(bufferSizeT)
+#define ZSTD_VERIF_SPARSE_ZEROWORDS(buffer, bufferT, ptrT, nb0T, seg0SizeT) \
+    __CPROVER_assigns(nb0T) \
+    __CPROVER_loop_invariant((nb0T) <= (seg0SizeT) \
+        && (zstd_verif_ghost.io_k < ZSTD_VERIF_SPARSE_DONE(bufferT, ptrT) || zstd_verif_ghost.io_k >= ZSTD_VERIF_SPARSE_DONE(bufferT, ptrT) + (nb0T) * sizeof(size_t) \
+            || ((const unsigned char*)(buffer))[zstd_verif_ghost.io_k] == 0)) \
+    __CPROVER_decreases((seg0SizeT) - (nb0T))
+#define ZSTD_VERIF_SPARSE_ZEROBYTES(buffer, restStart, restEnd, restPtr) \
+    __CPROVER_assigns(restPtr) \
+    __CPROVER_loop_invariant(__CPROVER_same_object(restPtr, restStart) \
+        && __CPROVER_POINTER_OFFSET(restStart) <= __CPROVER_POINTER_OFFSET(restPtr) && __CPROVER_POINTER_OFFSET(restPtr) <= __CPROVER_POINTER_OFFSET(restEnd) \
+        && (zstd_verif_ghost.io_k < (size_t)((restStart) - (const char*)(buffer)) || zstd_verif_ghost.io_k >= (size_t)((restPtr) - (const char*)(buffer)) \
+            || ((const unsigned char*)(buffer))[zstd_verif_ghost.io_k] == 0)) \
+    __CPROVER_decreases(__CPROVER_POINTER_OFFSET(restEnd) - __CPROVER_POINTER_OFFSET(restPtr))
 #define ZSTD_VERIF_BITS_CONSUMED(n) \
     do { if ((n) > zstd_verif_ghost.bits_high) zstd_verif_ghost.bits_high = (n); } while (0)
 
